@@ -120,6 +120,15 @@ CLAIMED['C08'] = ('Soups.tla outcome automaton; TLC enumerates all token soups u
                   'predict accept/reject of a soup); this is the weakest use of the technique in the list and the evidence says so',
                   'trusted: TLC, the stimulus builders in pv/c08.py, a 10 s watchdog per case for non-termination',
                   'DESIGN.md 5 (C08), 9')
+CLAIMED['C11'] = ('Concurrent.tla model-checked for all interleavings of parses over the shared grammar (mutant refuted by TLC on every run); '
+                  'every maximal schedule replayed on real parser threads under a deterministic scheduler, plus free-running threads and '
+                  'sequential histories with failed parses and edited results; validated by TLC (TraceConcurrent.tla)',
+                  'GrammarUntouched / ResultIsOwnDocument / NoSharing are invariants of the interleaving model; conformance records the grammar '
+                  'fingerprint after every step, compares every result with Doc!ParseDoc, checks identity-disjointness of results and '
+                  'reclamation by weak references',
+                  'trusted: TLC, the scheduler and the yield points installed by pv/c11.py (run-time wrapping of _set_syntax, parse_blueprint, '
+                  'Database.add); finer-grained races are only sampled',
+                  'DESIGN.md 2.9, 5 (C11)')
 NOT_YET = {}
 
 def main():
